@@ -159,6 +159,7 @@ func fwRun(c fwCase) M {
 		var cookieLines []string
 		for _, ck := range rq.Cookies {
 			line := strings.Replace(ck, "{SESSION}", sessVal, -1)
+			line = strings.Replace(line, "{SESSIONVAL}", strings.TrimPrefix(sessVal, w.cookieName+"="), -1)
 			cookieLines = append(cookieLines, line)
 			raw.WriteString("Cookie: " + line + "\r\n")
 		}
@@ -454,6 +455,10 @@ func init() {
 			R("session", "GET", "/", nil, []string{"_sso_proxy_csrf=keepme; {SESSION}; _SSO_PROXY=otherCase; _sso_proxy2=x"}, ""),
 			R("session", "PUT", "/big", []string{"Content-Type: application/octet-stream"}, nil, strings.Repeat("0123456789abcdef", 4096)),
 			R("session", "GET", "/", []string{"Authorization: Basic abc", "Authorization: Bearer def"}, nil, ""),
+			// a genuine sealed session under a differently-cased cookie name is not the session cookie: no authentication
+			R("none", "GET", "/", nil, []string{"_SSO_PROXY={SESSIONVAL}"}, ""),
+			R("none", "GET", "/a", nil, []string{"x=1; _Sso_Proxy={SESSIONVAL}; y=2"}, ""),
+			R("none", "GET", "/oauth2/auth", nil, []string{"_SSO_PROXY={SESSIONVAL}"}, ""),
 			// the favicon route authenticates first and then goes through the same scrub and identity assertion
 			R("session", "GET", "/favicon.ico", spoof, nil, ""),
 			R("session", "GET", "/favicon.ico?v=2", []string{"X-Forwarded-Access-Token: forged"}, nil, ""),
